@@ -2,6 +2,7 @@ package main
 
 import (
 	"fmt"
+	"regexp"
 	"go/constant"
 	"math"
 	"time"
@@ -48,6 +49,7 @@ type Engine struct {
 	seenViol     map[string]bool
 	noPanicCheck bool
 	frozenInputs bool
+	target       *ssa.Package
 }
 
 // internalVar is an unconstrained value that is not a harness input (opaque lengths etc.).
@@ -512,6 +514,7 @@ func (e *Engine) Explore(st *State) {
 				e.Paths++
 				e.Unsupp[x.why]++
 				traceUnsupp(x.why)
+				traceFrames(st, x.why)
 			default:
 				panic(r)
 			}
@@ -581,6 +584,15 @@ func (e *Engine) branchImpl(st *State, conds []*Term, apply func(st *State, i in
 		panic(pathEnd{})
 	}
 	e.Branches += len(feasible)
+	if qprof != nil && len(st.frames) > 0 {
+		f := st.top()
+		pos := token.NoPos
+		if f.ip > 0 && f.ip <= len(f.blk.Instrs) {
+			pos = f.blk.Instrs[f.ip-1].Pos()
+		}
+		p := e.prog.Fset.Position(pos)
+		qprof[fmt.Sprintf("FORK %s %s:%d", f.fn.Name(), p.Filename[strings.LastIndex(p.Filename, "/")+1:], p.Line)] += len(feasible) - 1
+	}
 	for n, i := range feasible {
 		cur := st
 		if n < len(feasible)-1 {
@@ -599,6 +611,7 @@ func (e *Engine) branchImpl(st *State, conds []*Term, apply func(st *State, i in
 						e.Paths++
 						e.Unsupp[x.why]++
 						traceUnsupp(x.why)
+						traceFrames(cur, x.why)
 					default:
 						fmt.Fprintf(os.Stderr, "INTERNAL PANIC: %v\n%s\n", r, debug.Stack())
 						os.Exit(4)
@@ -1770,10 +1783,45 @@ func (e *Engine) invoke(st *State, fv Value, args []Value, call *ssa.Call, pos t
 		if fn.name == "" {
 			e.goPanic(st, "call of nil function", pos)
 		}
+		if fn.name == "$swapElems" {
+			sl := fn.bind[0].(SliceV)
+			i, j := SExt(term(args[0]), 64), SExt(term(args[1]), 64)
+			o := st.obj(sl.obj)
+			et := o.elemType()
+			pi := Pointer{obj: sl.obj, off: Bin("bvmul", Bin("bvadd", sl.off, i), BV(64, uint64(sl.es)))}
+			pj := Pointer{obj: sl.obj, off: Bin("bvmul", Bin("bvadd", sl.off, j), BV(64, uint64(sl.es)))}
+			vi, vj := e.load(st, pi, et, pos), e.load(st, pj, et, pos)
+			e.store(st, pi, et, vj, pos)
+			e.store(st, pj, et, vi, pos)
+			setRes(TupleV{})
+			return
+		}
 		setRes(e.builtin(st, fn.name, args, call, pos))
 		return
 	}
 	name := fn.fn.String()
+	if name == "sort.Slice" || name == "sort.SliceStable" {
+		// modelled by a stable insertion sort written in Go (prelude helper vInsertionSort) that calls
+		// the real less closure; the reflect-based swapper is replaced by an engine builtin.
+		modelsUsed["sort.Slice (insertion sort calling the real less)"]++
+		iv, ok := args[0].(Iface)
+		if !ok {
+			panic(unsupported{"sort.Slice on non-interface"})
+		}
+		sl, ok := iv.val.(SliceV)
+		if !ok {
+			panic(unsupported{"sort.Slice on non-slice"})
+		}
+		helper := e.target.Func("vInsertionSort")
+		if helper == nil {
+			panic(unsupported{"prelude helper vInsertionSort missing"})
+		}
+		e.pushFrame(st, helper, []Value{sl.ln, args[1], FuncV{name: "$swapElems", bind: []Value{sl}}}, callV)
+		return
+	}
+	if fn.name == "" && false {
+		return
+	}
 	if m, ok := lookupModel(fn.fn); ok {
 		setRes(m(e, st, args, call, pos))
 		return
@@ -1793,7 +1841,7 @@ func (e *Engine) invoke(st *State, fv Value, args []Value, call *ssa.Call, pos t
 			return
 		}
 	}
-	if e.mergeSet[name] && len(fn.fn.Blocks) > 0 && !e.tolerant {
+	if len(e.mergeSet) > 0 && (e.mergeSet[name] || e.mergeSet[shortFnName(name)]) && len(fn.fn.Blocks) > 0 && !e.tolerant {
 		e.summarize(st, fn.fn, args, fn.bind, call, pos)
 		return
 	}
@@ -2238,3 +2286,17 @@ func traceUnsupp(why string) {
 		fmt.Fprintf(os.Stderr, "TRACE %s\n%s\n", why, debug.Stack())
 	}
 }
+
+func traceFrames(st *State, why string) {
+	if t := os.Getenv("GOSYM_FRAMES"); t != "" && strings.Contains(why, t) {
+		fmt.Fprintf(os.Stderr, "FRAMES for %s:\n", why)
+		for _, f := range st.frames {
+			fmt.Fprintf(os.Stderr, "   %s\n", f.fn)
+		}
+	}
+}
+
+var shortRe = regexp.MustCompile(`[A-Za-z0-9_.\-]+/`)
+
+// shortFnName strips import-path directories: (*github.com/osrg/gobgp/v4/pkg/packet/bgp.X).M -> (*bgp.X).M
+func shortFnName(name string) string { return shortRe.ReplaceAllString(name, "") }
